@@ -30,7 +30,9 @@ pub fn regime(r: &crate::proto::Req) -> &'static str {
     let b = r.s("b");
     let oc = r.s("oc");
     let p = r.s("p");
-    if !(oc.is_empty() || oc == "vec") || p == "out" {
+    if b == "opt" {
+        "backend"
+    } else if !(oc.is_empty() || oc == "vec") || p == "out" {
         "outpath"
     } else if !(b.is_empty() || b == "vec") {
         "backend"
@@ -80,11 +82,26 @@ macro_rules! __roll_finish_strided {
     }};
 }
 
+/// the option view (`v.opt()`, element type `Option<Inner>`) as input backend — only for null-aware
+/// entry points (`yes`); the plain family needs `T: Number`
+#[macro_export]
+macro_rules! __opt_arm {
+    (yes, $r:expr, $v:ident, $len:expr, $view:ident, $OC:ident, $U:ident, $out:ident, $call:expr) => {{
+        let __o = $v.opt();
+        let $view = &__o;
+        $crate::__roll_finish!($r, $len, $OC, $U, $out, $call)
+    }};
+    (no, $r:expr, $v:ident, $len:expr, $view:ident, $OC:ident, $U:ident, $out:ident, $call:expr) => {{
+        let _ = (&$v, $len);
+        panic!("the option view is not an input of the plain family")
+    }};
+}
+
 /// single-series rolling function. `$xsm` = with_xs_all (null-aware) or with_xs_num (plain);
 /// `$xsb` = element types used in the backend regime (with_xs_f: f64 + Option<f64>, with_xs_f64: f64).
 #[macro_export]
 macro_rules! roll1_dispatch {
-    ($r:expr, $xsm:ident, $xsb:ident, |$view:ident, $OC:ident, $U:ident, $out:ident| $call:expr) => {{
+    ($r:expr, $xsm:ident, $xsb:ident, $opt:ident, |$view:ident, $OC:ident, $U:ident, $out:ident| $call:expr) => {{
         match $crate::rollrun::regime($r) {
             "types" => $crate::$xsm!($r, "xs", __v => $crate::with_out!($r, $U => {
                 type $OC = Vec<$U>;
@@ -97,9 +114,13 @@ macro_rules! roll1_dispatch {
                 type $OC = Vec<f64>;
                 let __len = __v.len();
                 let __fill = <[_]>::first(&__v).map(|x| x.clone()).unwrap_or_default();
-                $crate::with_view_sized!($r.s("b"), __v, __fill, $view => {
-                    $crate::__roll_finish!($r, __len, $OC, $U, $out, $call)
-                })
+                if $r.s("b") == "opt" {
+                    $crate::__opt_arm!($opt, $r, __v, __len, $view, $OC, $U, $out, $call)
+                } else {
+                    $crate::with_view_sized!($r.s("b"), __v, __fill, $view => {
+                        $crate::__roll_finish!($r, __len, $OC, $U, $out, $call)
+                    })
+                }
             }),
             _ => {
                 let __v = $crate::types::as_f64(&$r.series("xs"));
